@@ -5,18 +5,27 @@ ID = "C11"
 LEAN_PROPS = ["FcpptProofs.Props.C11"]
 HARNESS = {"src": "harness/c11.cpp"}
 TIE = ("hand-written pointer-store model (FcpptModel/Model/C11.lean, one definition per special member of intrusive::base / "
-       "intrusive::list, pointer write by pointer write) + differential correspondence on operation histories; every line "
-       "compares forward walk, backward walk, empty() and the raw prev_/next_ of every live node")
+       "intrusive::list and per member of intrusive::iterator, pointer write by pointer write; both operator()s of signal::object as "
+       "loops with effectful callbacks; owners of auto_connections) + differential correspondence on operation histories; every line "
+       "compares forward / backward walk (iterator and const_iterator, ++it, it++, --it, it--, operator->, the iterator's members called "
+       "directly), empty() and the raw prev_/next_ of every live node, the position of every iterator object; for signals what every "
+       "signal invokes, its result, the backward walk of connections(), the unregister counters and what each unregister function saw")
 RULE = ("history batches: `reset` + up to 30 (quick) / 50 (thorough) operations over <= 3 live lists / signals and <= 8 live "
         "elements / connections; after every operation both sides print the full observable state. An op is non-trivial if "
         "its dump shows at least one linked element / invoked callback; distinct = distinct (op, resulting state) pairs. "
-        "small-scope batches: every valid sequence of <= 3 operations (thorough: <= 4 for six of them) after each of nine start "
-        "scenarios, fresh ids canonical (exhaustive within that scope). Operation kinds generated: L E d u M A LM LA LD "
-        "(lists), SN PN SC PC SX SM SA SD call (signals); the weights are in the batch notes.")
+        "small-scope batches (exhaustive within their scope, fresh ids canonical): every valid sequence of <= 3 list operations after each "
+        "of nine start scenarios (thorough: <= 4 for six of them); iterators at every kind of position, every sequence of <= 2 list operations, "
+        "then every iterator operation on every surviving iterator and every comparable pair (incl. self-swap); every valid sequence of <= 3 "
+        "signal / owner operations after each of nine signal scenarios over the four instantiations int(int)|void(int) x signal::base|"
+        "unregister::base (thorough: <= 4 for six of them); every single and every pair of callback effects during a call; the deliberate "
+        "self-disconnect histories. Operation kinds: L E d u M A LM LA LD, IB IE CB CE IP CP IN CN IC IX I+ I- Ip Im I= IS I* (lists), "
+        "SN PN VN WN SC PC VC WC SX SM SA SD call vcall HA HW KP KO KE KC KA AN AR AK AC rcall rvcall (signals); weights in the batch notes.")
 ASSUMPTIONS = [
-    "the caller respects object lifetimes (constructors on fresh storage, members on live objects) - generator and driver enforce it",
-    "callbacks, combiners and unregister functions are pure apart from the log/counter the harness keeps; the theorems hold for every choice",
+    "the caller respects object lifetimes (constructors on fresh storage, members on live objects, no use of an iterator whose node was destroyed) - generator and driver enforce it",
+    "callbacks, combiners and unregister functions are pure apart from the log/counter the harness keeps and the effects set by AR/AK/AC; the theorems hold for every choice",
+    "no callback lets go of the connection it is running from (Spec.loopSafe): the library reads the destroyed hook in ++it - exercised on purpose by the batch signals-self-disconnect, where the model's fault:oob must meet AddressSanitizer's heap-use-after-free in iterator::increment",
     "a moved-from fcppt::function (std::function) is empty (libstdc++): calling a moved-from signal that has connections prints nocomb",
+    "std::vector destroys its elements front to back on clear() / destruction / move assignment, a moved-from vector is empty, self-move-assignment of std::optional<unique_ptr> is a no-op (libstdc++)",
 ]
 TRUSTED = ["harness/c11.cpp (incl. the read-only friend access to prev_/next_/head_) and the line protocol (vh.hpp, Proto.lean)",
            "g++ 12 + ASan/UBSan as witness for stale links actually followed by the real code"]
@@ -71,19 +80,27 @@ class Rings:
         c.rings = [list(r) for r in self.rings]
         return c
 
+    def next(self, n):
+        r = self.ring_of(n)
+        return r[(r.index(n) + 1) % len(r)]
+
+    def prev(self, n):
+        r = self.ring_of(n)
+        return r[(r.index(n) - 1) % len(r)]
+
     # ---- operations, same text as the protocol
     def apply(self, op):
         t = op.split()
         o = t[0]
         a = [int(x) for x in t[1:]]
-        if o in ("L", "SN", "PN"):
+        if o in ("L", "SN", "PN", "VN", "WN"):
             self.rings.insert(0, [f"h{a[0]}"])
-        elif o in ("E", "SC", "PC"):
+        elif o in ("E", "SC", "PC", "VC", "WC"):
             e, k = a[0], a[1]
             for r in self.rings:
                 if r[0] == f"h{k}":
                     r.append(f"e{e}")
-        elif o in ("d", "SX"):
+        elif o == "d":
             self.erase(f"e{a[0]}")
         elif o == "u":
             self.erase(f"e{a[0]}")
@@ -119,9 +136,15 @@ class Rings:
                     self.rings.insert(0, [f"h{a[1]}"])
         elif o in ("LD", "SD"):
             self.erase(f"h{a[0]}")
+        elif o in ("LS", "SS"):           # std::swap: temporary list / signal 7
+            for step in (f"LM 7 {a[0]}", f"LA {a[0]} {a[1]}", f"LA {a[1]} 7", "LD 7"):
+                self.apply(step)
+        elif o == "ES":                   # temporary element 15
+            for step in (f"M 15 {a[0]}", f"A {a[0]} {a[1]}", f"A {a[1]} 15", "d 15"):
+                self.apply(step)
 
 
-def valid_list_ops(st, list_ids=LIST_IDS, elem_ids=ELEM_IDS, max_lists=MAX_LISTS_LIVE, max_elems=MAX_ELEMS_LIVE, canonical=False):
+def valid_list_ops(st, list_ids=LIST_IDS, elem_ids=ELEM_IDS, max_lists=MAX_LISTS_LIVE, max_elems=MAX_ELEMS_LIVE, canonical=False, swaps=True):
     """all valid operations in state st, grouped by kind. canonical: fresh ids are the smallest free id."""
     ls, es = st.lists(), st.elems()
     free_l = [k for k in range(list_ids) if k not in ls]
@@ -140,10 +163,13 @@ def valid_list_ops(st, list_ids=LIST_IDS, elem_ids=ELEM_IDS, max_lists=MAX_LISTS
     ops["A"] = [f"A {a} {b}" for a in es for b in es]
     ops["LA"] = [f"LA {k} {k2}" for k in ls for k2 in ls]
     ops["LD"] = [f"LD {k}" for k in ls]
+    if swaps:
+        ops["LS"] = [f"LS {k} {k2}" for k in ls for k2 in ls if k <= k2]
+        ops["ES"] = [f"ES {a} {b}" for a in es for b in es if a <= b]
     return {k: v for k, v in ops.items() if v}
 
 
-LIST_WEIGHTS = {"L": 3, "E": 10, "d": 5, "u": 3, "M": 5, "A": 6, "LM": 3, "LA": 5, "LD": 2}
+LIST_WEIGHTS = {"L": 3, "E": 10, "d": 5, "u": 3, "M": 5, "A": 6, "LM": 3, "LA": 5, "LD": 2, "LS": 2, "ES": 3}
 
 
 def gen_list_history(rng, length):
@@ -165,7 +191,7 @@ def gen_list_history(rng, length):
             x -= wk
         op = rng.choice(cand[k])
         # self move-assignment is legal and rare
-        if k in ("A", "LA"):
+        if k in ("A", "LA", "LS", "ES"):
             t = op.split()
             if t[1] == t[2] and not rng.chance(1, 4):
                 continue
@@ -174,31 +200,209 @@ def gen_list_history(rng, length):
     return ops
 
 
-SIG_WEIGHTS = {"N": 3, "C": 10, "X": 6, "SM": 3, "SA": 5, "SD": 2, "call": 4}
+SIG_WEIGHTS = {"N": 3, "C": 12, "X": 5, "SM": 3, "SA": 5, "SD": 2, "SS": 2, "call": 4,
+               "HA": 3, "HW": 2, "KP": 4, "KO": 2, "KE": 3, "KC": 2, "KA": 2, "ACT": 5, "rcall": 6}
+FAMS = "SPVW"            # S int/unregister, P int/plain, V void/unregister, W void/plain
+N_CONTS = 3
+
+
+class SigState:
+    """generator-side mirror of the driver's signal state: rings + families + owners of connections"""
+
+    def __init__(self):
+        self.st = Rings()
+        self.fam = {}                               # signal id -> "S" | "P" | "V" | "W"
+        self.own = {}                               # owner (holder h = h, container c = 16 + c) -> [connection ids]
+        self.nextf = 1
+        self.cb = {}                                # connection id -> callback id
+        self.acts = {}                              # callback id -> ("R", owner) | ("C", h, s, f2, u)
+        self.comb = {}                              # signal id -> combiner present (False: moved-from)
+
+    def copy(self):
+        c = SigState()
+        c.st = self.st.copy()
+        c.fam = dict(self.fam)
+        c.own = {k: list(v) for k, v in self.own.items() if v}
+        c.nextf = self.nextf
+        c.cb = dict(self.cb)
+        c.acts = dict(self.acts)
+        c.comb = dict(self.comb)
+        return c
+
+    def sim_rcall(self, k, apply=False):
+        """mirror of the call loop with effectful callbacks. Returns False if the call would be undefined behaviour (a callback
+        lets go of its own connection), would call a moved-from combiner or would not end within 40 steps"""
+        g = self if apply else self.copy()
+        h = f"h{k}"
+        cur = g.st.next(h)
+        if cur != h and g.fam[k] in "SP" and not g.comb.get(k, False):
+            return False
+        steps = 0
+        while cur != h:
+            steps += 1
+            if steps > 40:
+                return False
+            x = int(cur[1:])
+            a = g.acts.get(g.cb[x])
+            if a and a[0] == "R":
+                if x in g.o(a[1]):
+                    return False
+                g.kill(g.o(a[1]))
+                g.own[a[1]] = []
+            elif a and a[0] == "C":
+                _, hh, s2, f2, u = a
+                if not g.o(hh) and hh not in g.conns() and s2 in g.fam:
+                    g.st.apply(f"E {hh} {s2}")
+                    g.own[hh] = [hh]
+                    g.cb[hh] = f2
+            cur = g.st.next(cur)
+        return True
+
+    def o(self, k):
+        return self.own.get(k, [])
+
+    def conns(self):
+        return sorted(x for v in self.own.values() for x in v)
+
+    def connect_op(self, x, k, u=None):
+        f = self.nextf
+        fm = self.fam[k]
+        if fm in "SV":
+            return f"{fm}C {x} {k} {f} {x % 7 if u is None else u}"
+        return f"{fm}C {x} {k} {f}"
+
+    def kill(self, xs):
+        for x in xs:
+            self.st.erase(f"e{x}")
+
+    def apply(self, op):
+        t = op.split()
+        o = t[0]
+        a = [int(x) for x in t[1:]]
+        if o in ("call", "vcall"):
+            return
+        if o in ("rcall", "rvcall"):
+            assert self.sim_rcall(a[0], apply=True), op
+        elif o == "AN":
+            self.acts.pop(a[0], None)
+        elif o == "AR":
+            self.acts[a[0]] = ("R", a[1])
+        elif o == "AK":
+            self.acts[a[0]] = ("R", 16 + a[1])
+        elif o == "AC":
+            self.acts[a[0]] = ("C", a[1], a[2], a[3], a[4])
+        elif o[1] == "N" and o[0] in FAMS:
+            self.fam[a[0]] = o[0]
+            self.comb[a[0]] = True
+            self.st.apply(op)
+        elif o[1] == "C" and o[0] in FAMS:
+            self.st.apply(op)
+            self.own[a[0]] = self.o(a[0]) + [a[0]]
+            self.cb[a[0]] = a[2]
+            self.nextf = self.nextf % 97 + 1
+        elif o == "SM":
+            self.fam[a[0]] = self.fam[a[1]]
+            self.comb[a[0]] = self.comb[a[1]]
+            self.comb[a[1]] = False
+            self.st.apply(op)
+        elif o == "SS":
+            self.st.apply(op)
+            self.comb[a[0]], self.comb[a[1]] = self.comb[a[1]], self.comb[a[0]]
+        elif o in ("SA", "SD"):
+            self.st.apply(op)
+            if o == "SA" and a[0] != a[1]:
+                self.comb[a[0]] = self.comb[a[1]]
+                self.comb[a[1]] = False
+            if o == "SD":
+                del self.fam[a[0]]
+                del self.comb[a[0]]
+        elif o == "SX":
+            self.kill(self.o(a[0]))
+            self.own[a[0]] = []
+        elif o == "HA":
+            if a[0] != a[1]:
+                self.kill(self.o(a[0]))
+                self.own[a[0]] = self.o(a[1])
+                self.own[a[1]] = []
+        elif o == "HW":
+            self.own[a[0]], self.own[a[1]] = self.o(a[1]), self.o(a[0])
+        elif o == "KP":
+            self.own[16 + a[0]] = self.o(16 + a[0]) + self.o(a[1])
+            self.own[a[1]] = []
+        elif o == "KO":
+            c = self.o(16 + a[0])
+            self.own[a[1]] = [c[-1]]
+            self.own[16 + a[0]] = c[:-1]
+        elif o == "KE":
+            c = self.o(16 + a[0])
+            self.kill([c[a[1]]])
+            self.own[16 + a[0]] = c[:a[1]] + c[a[1] + 1:]
+        elif o == "KC":
+            self.kill(self.o(16 + a[0]))
+            self.own[16 + a[0]] = []
+        elif o == "KA":
+            self.kill(self.o(16 + a[0]))
+            self.own[16 + a[0]] = self.o(16 + a[1])
+            self.own[16 + a[1]] = []
+        else:
+            raise ValueError(op)
+
+    def valid_ops(self, sig_ids=LIST_IDS, conn_ids=ELEM_IDS, max_sigs=MAX_LISTS_LIVE, max_conns=MAX_ELEMS_LIVE,
+                  n_conts=N_CONTS, canonical=False, fams=FAMS, rng=None, swaps=True):
+        """all valid operation lines in this state, grouped by kind"""
+        ls = self.st.lists()
+        used = self.conns()
+        free_l = [k for k in range(sig_ids) if k not in ls]
+        free_h = [h for h in range(conn_ids) if not self.o(h) and h not in used]   # holder free and id unused
+        empty_h = [h for h in range(conn_ids) if not self.o(h)]
+        full_h = [h for h in range(conn_ids) if self.o(h)]
+        if canonical:
+            free_l, free_h, empty_h = free_l[:1], free_h[:1], empty_h[:1]
+        cand = {}
+        rb = (lambda n: rng.below(n)) if rng else (lambda n: 0)
+        if len(ls) < max_sigs:
+            cand["N"] = [(f"{f}N {k} {(rb(8) if rng else k + 1)}" if f in "SP" else f"{f}N {k}") for k in free_l for f in fams]
+            cand["SM"] = [f"SM {k2} {k}" for k2 in free_l for k in ls]
+        if len(used) < max_conns and ls:
+            cand["C"] = [self.connect_op(h, k, rb(6) if rng else None) for h in free_h for k in ls]
+        cand["X"] = [f"SX {h}" for h in full_h]
+        cand["SA"] = [f"SA {k} {k2}" for k in ls for k2 in ls if self.fam[k] == self.fam[k2]]
+        cand["SD"] = [f"SD {k}" for k in ls]
+        if swaps:
+            cand["SS"] = [f"SS {k} {k2}" for k in ls for k2 in ls if k <= k2 and self.fam[k] == self.fam[k2]]
+        cand["call"] = [(f"call {k} {rb(50)} {rb(50)}" if self.fam[k] in "SP" else f"vcall {k} {rb(50)}") for k in ls]
+        cand["HA"] = [f"HA {a} {b}" for b in full_h for a in (full_h + empty_h)]          # a == b: self-move-assignment
+        cand["HW"] = [f"HW {a} {b}" for a in full_h for b in (full_h + empty_h)]          # a == b: self-swap
+        cand["KP"] = [f"KP {c} {h}" for c in range(n_conts) for h in full_h]
+        cand["KO"] = [f"KO {c} {h}" for c in range(n_conts) if self.o(16 + c) for h in empty_h]
+        cand["KE"] = [f"KE {c} {i}" for c in range(n_conts) for i in range(len(self.o(16 + c)))]
+        cand["KC"] = [f"KC {c}" for c in range(n_conts) if self.o(16 + c)]
+        cand["KA"] = [f"KA {c} {c2}" for c in range(n_conts) for c2 in range(n_conts) if c != c2 and (self.o(16 + c) or self.o(16 + c2))]
+        if rng and used:
+            fs = sorted(set(self.cb[x] for x in used))
+            f = rng.choice(fs)
+            k = rng.below(4)
+            if k == 0:
+                cand["ACT"] = [f"AR {f} {rng.below(conn_ids)}"]
+            elif k == 1:
+                cand["ACT"] = [f"AK {f} {rng.below(n_conts)}"]
+            elif k == 2:
+                cand["ACT"] = [f"AC {f} {rng.below(conn_ids)} {rng.choice(ls) if ls and rng.chance(3, 4) else rng.below(sig_ids)} {60 + rng.below(37)} {rng.below(6)}"]
+            else:
+                cand["ACT"] = [f"AN {f}"]
+            rc = [(f"rcall {k} {rng.below(50)} {rng.below(50)}" if self.fam[k] in "SP" else f"rvcall {k} {rng.below(50)}")
+                  for k in ls if self.sim_rcall(k)]
+            if rc:
+                cand["rcall"] = rc
+        return {k: v for k, v in cand.items() if v}
 
 
 def gen_sig_history(rng, length):
-    st = Rings()
-    fam = {}        # signal id -> "S" | "P"
+    g = SigState()
     ops = []
-    nextf = [1]
     while len(ops) < length:
-        ls, es = st.lists(), st.elems()
-        free_l = [k for k in range(LIST_IDS) if k not in ls]
-        free_e = [e for e in range(ELEM_IDS) if e not in es]
-        cand = {}
-        if len(ls) < MAX_LISTS_LIVE:
-            cand["N"] = [f"{f}N {k} {rng.below(8)}" for k in free_l for f in "SP"]
-            cand["SM"] = [f"SM {k2} {k}" for k2 in free_l for k in ls]
-        if len(es) < MAX_ELEMS_LIVE and ls:
-            cand["C"] = [(f"SC {e} {k} {nextf[0]} {rng.below(6)}" if fam[k] == "S" else f"PC {e} {k} {nextf[0]}") for e in free_e for k in ls]
-        if es:
-            cand["X"] = [f"SX {e}" for e in es]
-        if ls:
-            cand["SA"] = [f"SA {k} {k2}" for k in ls for k2 in ls if fam[k] == fam[k2]]
-            cand["SD"] = [f"SD {k}" for k in ls]
-            cand["call"] = [f"call {k} {rng.below(50)} {rng.below(50)}" for k in ls]
-        if not ls:
+        cand = g.valid_ops(rng=rng)
+        if not g.st.lists():
             cand = {"N": cand["N"]}
         kinds = sorted(cand)
         w = [SIG_WEIGHTS[k] for k in kinds]
@@ -211,15 +415,310 @@ def gen_sig_history(rng, length):
         t = op.split()
         if k == "SA" and t[1] == t[2] and not rng.chance(1, 4):
             continue
-        if k == "N":
-            fam[int(t[1])] = t[0][0]
-        if k == "SM":
-            fam[int(t[1])] = fam[int(t[2])]
-        if k == "C":
-            nextf[0] = nextf[0] % 97 + 1
         ops.append(op)
-        if k != "call":
-            st.apply(op)
+        g.apply(op)
+    return ops
+
+
+def sig_scenarios():
+    """start states for the exhaustive signal batch"""
+    return [
+        ["SN 0 1"],
+        ["SN 0 1", "SC 0 0 1 0", "SC 1 0 2 1"],
+        ["SN 0 1", "SC 0 0 1 0", "SC 1 0 2 1", "SN 1 2", "SC 2 1 3 2"],
+        ["PN 0 1", "PC 0 0 1", "PC 1 0 2", "PN 1 2"],
+        ["VN 0", "VC 0 0 1 0", "VC 1 0 2 1", "VN 1", "VC 2 1 3 2"],
+        ["WN 0", "WC 0 0 1", "WC 1 0 2"],
+        ["SN 0 1", "SC 0 0 1 0", "SC 1 0 2 1", "SC 2 0 3 2", "KP 0 0", "KP 0 2"],       # container [c0, c2], holder 1
+        ["SN 0 1", "SC 0 0 1 0", "SC 1 0 2 1", "SM 1 0", "SC 2 0 3 2"],                  # moved-from signal with a new connection
+        ["VN 0", "VC 0 0 1 0", "VC 1 0 2 1", "VC 2 0 3 2", "KP 0 2", "KP 0 1", "KP 1 0"],  # container order != connection order
+    ]
+
+
+def enum_sig_swap_small():
+    """std::swap of every pair of signals of one kind (a signal with itself included) after <= 1 operation from each scenario, then one more operation"""
+    out = []
+    for pre in sig_scenarios():
+        g0 = SigState()
+        for o in pre:
+            g0.apply(o)
+        fams = "".join(sorted(set(g0.fam.values())))
+        kw = dict(sig_ids=3, conn_ids=5, max_sigs=3, max_conns=4, n_conts=2, canonical=True, fams=fams)
+
+        def ops_of(g, swaps):
+            c = g.valid_ops(swaps=swaps, **kw)
+            return [op for k in sorted(c) if k != "call" for op in c[k]]
+
+        for f in [[]] + [[op] for op in ops_of(g0, False)]:
+            g1 = g0.copy()
+            for o in f:
+                g1.apply(o)
+            for sw in g1.valid_ops(**kw).get("SS", []):
+                g2 = g1.copy()
+                g2.apply(sw)
+                for o2 in ops_of(g2, False):
+                    out.append(pre + f + [sw, o2])
+    return out
+
+
+def enum_sig_small(depth, only=None, swaps=False):
+    out = []
+    for idx, pre in enumerate(sig_scenarios()):
+        if only is not None and idx not in only:
+            continue
+        g0 = SigState()
+        for o in pre:
+            g0.apply(o)
+        fams = "".join(sorted(set(g0.fam.values())))
+
+        def rec(g, seq, d):
+            if seq:
+                out.append(pre + seq)
+            if d == 0:
+                return
+            cand = g.valid_ops(sig_ids=3, conn_ids=5, max_sigs=3, max_conns=4, n_conts=2, canonical=True, fams=fams, swaps=swaps)
+            for k in sorted(cand):
+                if k == "call":
+                    continue            # the dump of every line calls every signal
+                for op in cand[k]:
+                    g2 = g.copy()
+                    g2.apply(op)
+                    rec(g2, seq + [op], d - 1)
+
+        rec(g0, [], depth)
+    return out
+
+
+def enum_self_disconnect():
+    """the one thing a callback may not do: let go of the connection it is running from.  The library reads the destroyed hook in
+    `++it` (AddressSanitizer: heap-use-after-free in iterator::increment), the model faults at the same read (`fault:oob`).  One
+    history per instantiation and per kind of owner; the call is the last line of its history (the harness process dies there)."""
+    out = []
+    for fm in FAMS:
+        u = fm in "SV"
+        new = f"{fm}N 0 1" if fm in "SP" else f"{fm}N 0"
+        c0 = f"{fm}C 0 0 1 0" if u else f"{fm}C 0 0 1"
+        c1 = f"{fm}C 1 0 2 1" if u else f"{fm}C 1 0 2"
+        call = "rcall 0 1 2" if fm in "SP" else "rvcall 0 2"
+        out.append([new, c0, c1, "AR 1 0", call])                 # first connection, held by a holder
+        out.append([new, c0, c1, "KP 0 1", "AK 2 0", call])       # last connection, held by a container
+    return out
+
+
+def enum_reentrant():
+    """a signal with three connections (two held by holders, one by a container) and a second signal of the same kind with one;
+    every pair of (callback, effect) x (callback, effect) where an effect is: let go of any owner, connect into a free or a taken
+    holder to either signal; then the call twice.  Calls that would be undefined behaviour (a callback letting go of its own
+    connection) are left out."""
+    out = []
+    for fm in FAMS:
+        u = fm in "SV"
+
+        def conn(x, k, f):
+            return f"{fm}C {x} {k} {f} {x}" if u else f"{fm}C {x} {k} {f}"
+
+        def new(k):
+            return f"{fm}N {k} {k + 1}" if fm in "SP" else f"{fm}N {k}"
+
+        pre = [new(0), conn(0, 0, 1), conn(1, 0, 2), conn(2, 0, 3), new(1), conn(3, 1, 4), "KP 0 1"]
+        effects = [f"AR {{f}} {h}" for h in (0, 2, 3, 5)] + ["AK {f} 0", "AK {f} 1"] + \
+                  [f"AC {{f}} {h} {k} {f2} 7" for h, f2 in ((4, 5), (0, 6)) for k in (0, 1, 2)]
+        call = "rcall 0 1 2" if fm in "SP" else "rvcall 0 2"
+        singles = [[e.format(f=f)] for f in (1, 2, 3, 5) for e in effects]
+        pairs = [a + b for a in singles for b in singles if a[0].split()[1] < b[0].split()[1]]
+        for acts in [[]] + singles + pairs:
+            h = pre + acts
+            g = SigState()
+            for o in h:
+                g.apply(o)
+            if not g.sim_rcall(0):
+                continue
+            g.apply(call)
+            h = h + [call]
+            if g.sim_rcall(0):
+                h = h + [call]
+            out.append(h)
+    return out
+
+
+# ------------------------------------------------------------------ iterator objects
+class ItState:
+    """rings + iterator slots (slot -> node name | "null")"""
+
+    def __init__(self, st):
+        self.st = st
+        self.slots = {}
+
+    def apply(self, op):
+        t = op.split()
+        o = t[0]
+        if o in ("IB", "CB"):
+            self.slots[int(t[1])] = self.st.next(f"h{t[2]}")
+        elif o in ("IE", "CE"):
+            self.slots[int(t[1])] = f"h{t[2]}"
+        elif o in ("IP", "CP"):
+            self.slots[int(t[1])] = f"e{t[2]}"
+        elif o in ("IN", "CN"):
+            self.slots[int(t[1])] = "null"
+        elif o == "IC":
+            self.slots[int(t[1])] = self.slots[int(t[2])]
+        elif o == "IX":
+            del self.slots[int(t[1])]
+        elif o in ("I+", "Ip"):
+            self.slots[int(t[1])] = self.st.next(self.slots[int(t[1])])
+        elif o in ("I-", "Im"):
+            self.slots[int(t[1])] = self.st.prev(self.slots[int(t[1])])
+        elif o == "IS":
+            i, j = int(t[1]), int(t[2])
+            self.slots[i], self.slots[j] = self.slots[j], self.slots[i]
+        elif o in ("I=", "I*"):
+            pass
+        else:
+            self.st.apply(op)
+            if o == "d":
+                self.slots = {i: n for i, n in self.slots.items() if n != f"e{t[1]}"}
+            if o == "LD":
+                self.slots = {i: n for i, n in self.slots.items() if n != f"h{t[1]}"}
+
+
+def iter_setup(st):
+    """iterators at every kind of position of the start state: begin/end of the first and last list (const and not),
+    the first and the last element by pointer, a default-constructed one"""
+    ls, es = st.lists(), st.elems()
+    ops = []
+    if ls:
+        ops += [f"IB 0 {ls[0]}", f"IE 1 {ls[0]}", f"CB 2 {ls[-1]}", f"CE 3 {ls[-1]}"]
+    if es:
+        ops += [f"IP 4 {es[0]}", f"CP 5 {es[-1]}"]
+    ops.append("IN 6")
+    return ops
+
+
+CONST_SLOTS = (2, 3, 5)
+
+
+def iter_probes(g):
+    """every iterator operation on every surviving slot (through the scratch slot 7), every comparable pair"""
+    ops = []
+    for i in sorted(g.slots):
+        n = g.slots[i]
+        if n == "null":
+            continue
+        for o in ("I+", "I-", "Ip", "Im"):
+            ops += [f"IC 7 {i}", f"{o} 7", f"{o} 7"]
+        if n[0] == "e":
+            ops.append(f"I* {i}")
+    ss = sorted(g.slots)
+    for i in ss:
+        for j in ss:
+            if (i in CONST_SLOTS) == (j in CONST_SLOTS) and i <= j:
+                ops.append(f"I= {i} {j}")
+    # swap every comparable pair (and every slot with itself), and back
+    for i in ss:
+        for j in ss:
+            if (i in CONST_SLOTS) == (j in CONST_SLOTS) and i <= j:
+                ops += [f"IS {i} {j}", f"IS {j} {i}"]
+    if 7 in g.slots or any(n != "null" for n in g.slots.values()):
+        ops.append("IX 7")
+    return ops
+
+
+def enum_iter_small(depth):
+    """scenario; iterators at every position; every valid sequence of <= depth list operations; all probes"""
+    out = []
+    for pre in scenarios():
+        st0 = Rings()
+        for o in pre:
+            st0.apply(o)
+        setup = iter_setup(st0)
+
+        def rec(st, seq, d):
+            g = ItState(st0.copy())
+            for o in setup + seq:
+                g.apply(o)
+            out.append(pre + setup + seq + iter_probes(g))
+            if d == 0:
+                return
+            cand = valid_list_ops(st, list_ids=4, elem_ids=6, max_lists=3, max_elems=4, canonical=True)
+            for k in sorted(cand):
+                for op in cand[k]:
+                    st2 = st.copy()
+                    st2.apply(op)
+                    rec(st2, seq + [op], d - 1)
+
+        rec(st0, [], depth)
+    return out
+
+
+ITER_KINDS = ["IB", "IE", "CB", "CE", "IP", "CP", "IN", "CN", "IC", "IX", "I+", "I-", "Ip", "Im", "I=", "I*", "IS"]
+
+
+def gen_iter_history(rng, length):
+    """random list history with iterator operations interleaved (iterators kept across mutations)"""
+    g = ItState(Rings())
+    const = {}
+    ops = []
+    while len(ops) < length:
+        st = g.st
+        if not st.lists() or not rng.chance(3, 5):
+            cand = valid_list_ops(st)
+            kinds = sorted(cand)
+            w = [LIST_WEIGHTS[k] for k in kinds]
+            if not st.lists():
+                kinds, w = ["L"], [1]
+            x = rng.below(sum(w))
+            for k, wk in zip(kinds, w):
+                if x < wk:
+                    break
+                x -= wk
+            op = rng.choice(cand[k])
+        else:
+            k = rng.choice(ITER_KINDS)
+            i = rng.below(8)
+            live = sorted(g.slots)
+            pos = [j for j in live if g.slots[j] != "null"]
+            if k in ("IB", "IE", "CB", "CE"):
+                op = f"{k} {i} {rng.choice(st.lists())}"
+            elif k in ("IP", "CP"):
+                if not st.elems():
+                    continue
+                op = f"{k} {i} {rng.choice(st.elems())}"
+            elif k in ("IN", "CN"):
+                if not rng.chance(1, 4):
+                    continue
+                op = f"{k} {i}"
+            elif k == "IC":
+                if not live:
+                    continue
+                op = f"IC {i} {rng.choice(live)}"
+            elif k == "IX":
+                if not live or not rng.chance(1, 3):
+                    continue
+                op = f"IX {rng.choice(live)}"
+            elif k in ("I+", "I-", "Ip", "Im"):
+                if not pos:
+                    continue
+                op = f"{k} {rng.choice(pos)}"
+            elif k in ("I=", "IS"):
+                pairs = [(a, b) for a in live for b in live if const[a] == const[b]]
+                if not pairs:
+                    continue
+                a, b = rng.choice(pairs)
+                op = f"{k} {a} {b}"
+            else:
+                de = [j for j in pos if g.slots[j][0] == "e"]
+                if not de:
+                    continue
+                op = f"I* {rng.choice(de)}"
+            t = op.split()
+            if t[0] in ("IB", "IE", "IP", "IN"):
+                const[int(t[1])] = False
+            elif t[0] in ("CB", "CE", "CP", "CN"):
+                const[int(t[1])] = True
+            elif t[0] == "IC":
+                const[int(t[1])] = const[int(t[2])]
+        ops.append(op)
+        g.apply(op)
     return ops
 
 
@@ -239,7 +738,7 @@ def scenarios():
     ]
 
 
-def enum_small(depth, max_lists=3, max_elems=4, only=None):
+def enum_small(depth, max_lists=3, max_elems=4, only=None, swaps=False):
     out = []
     for idx, pre in enumerate(scenarios()):
         if only is not None and idx not in only:
@@ -253,7 +752,7 @@ def enum_small(depth, max_lists=3, max_elems=4, only=None):
                 out.append(pre + seq)
             if d == 0:
                 return
-            cand = valid_list_ops(st, list_ids=4, elem_ids=6, max_lists=max_lists, max_elems=max_elems, canonical=True)
+            cand = valid_list_ops(st, list_ids=4, elem_ids=6, max_lists=max_lists, max_elems=max_elems, canonical=True, swaps=swaps)
             for k in sorted(cand):
                 for op in cand[k]:
                     st2 = st.copy()
@@ -264,6 +763,31 @@ def enum_small(depth, max_lists=3, max_elems=4, only=None):
     return out
 
 
+def enum_swap_small():
+    """std::swap of every pair of lists and of every pair of elements (a list / an element with itself included) in every state
+    reached by <= 1 operation from each start scenario, followed by every single operation"""
+    out = []
+    kw = dict(list_ids=4, elem_ids=6, max_lists=3, max_elems=4, canonical=True)
+    for pre in scenarios():
+        st0 = Rings()
+        for o in pre:
+            st0.apply(o)
+        firsts = [[]] + [[op] for k, v in sorted(valid_list_ops(st0, swaps=False, **kw).items()) for op in v]
+        for f in firsts:
+            st1 = st0.copy()
+            for o in f:
+                st1.apply(o)
+            c = valid_list_ops(st1, **kw)
+            for sw in c.get("LS", []) + c.get("ES", []):
+                st2 = st1.copy()
+                st2.apply(sw)
+                nxt = [op for k, v in sorted(valid_list_ops(st2, swaps=False, **kw).items()) for op in v]
+                for o2 in nxt:
+                    out.append(pre + f + [sw, o2])
+    return out
+
+
+SIG_DEEP = [0, 1, 3, 5, 6, 8]
 DEEP_SCENARIOS = [0, 1, 2, 3, 5, 6]     # depth 4 in the thorough tier (the others would be > 4M lines each)
 
 
@@ -288,9 +812,13 @@ def flat(hists):
 def batches(rng, tier):
     thorough = tier == "thorough"
     depth = 3
-    small = maximal_only(enum_small(depth))
+    small = maximal_only(enum_small(depth, swaps=thorough))
     yield Batch("lists-small-scope", flat(small), kind="history", exhaustive=True,
                 note=f"every valid sequence of <= {depth} operations (canonical fresh ids) after each of {len(scenarios())} start scenarios; {len(small)} maximal histories")
+    sw = enum_swap_small()
+    yield Batch("lists-swap-small-scope", flat(sw), kind="history", exhaustive=True,
+                note=f"std::swap of every pair of lists / of elements (self-swap included) in every state <= 1 operation away from a start scenario, "
+                     f"followed by every single operation; {len(sw)} histories")
     if thorough:
         for idx in DEEP_SCENARIOS:
             deep = maximal_only(enum_small(4, only=[idx]))
@@ -300,15 +828,53 @@ def batches(rng, tier):
     n, ln = (15000, 50) if thorough else (2000, 30)
     hs = [gen_list_history(r, r.range(ln // 2, ln)) for _ in range(n)]
     yield Batch("lists-random", flat(hs), kind="history", note=f"{n} random histories of length {ln // 2}..{ln}; kinds weighted {LIST_WEIGHTS}")
+    idepth = 2
+    its = enum_iter_small(idepth)
+    yield Batch("iterators-small-scope", flat(its), kind="history", exhaustive=True,
+                note=f"after each of {len(scenarios())} start scenarios: iterators at every kind of position (begin/end, const/non-const, by element "
+                     f"pointer, default), then every valid sequence of <= {idepth} list operations, then ++ -- it++ it-- * -> == != on every surviving "
+                     f"iterator; {len(its)} histories")
+    r = rng.fork("iterators")
+    n, ln = (6000, 60) if thorough else (800, 40)
+    hs = [gen_iter_history(r, r.range(ln // 2, ln)) for _ in range(n)]
+    yield Batch("iterators-random", flat(hs), kind="history",
+                note=f"{n} random list histories of length {ln // 2}..{ln} with iterator operations interleaved (iterators kept across mutations)")
+    sdepth = 3
+    ssmall = maximal_only(enum_sig_small(sdepth, swaps=thorough))
+    yield Batch("signals-small-scope", flat(ssmall), kind="history", exhaustive=True,
+                note=f"every valid sequence of <= {sdepth} signal / owner operations (canonical fresh ids) after each of {len(sig_scenarios())} start scenarios "
+                     f"(all four instantiations); {len(ssmall)} maximal histories")
+    ssw = enum_sig_swap_small()
+    yield Batch("signals-swap-small-scope", flat(ssw), kind="history", exhaustive=True,
+                note=f"std::swap of every pair of signals of one kind (self-swap included) in every state <= 1 operation away from a signal scenario, "
+                     f"followed by every single operation; {len(ssw)} histories")
+    if thorough:
+        for idx in SIG_DEEP:
+            deep = maximal_only(enum_sig_small(4, only=[idx]))
+            yield Batch(f"signals-small-scope-depth4-s{idx}", flat(deep), kind="history", exhaustive=True,
+                        note=f"every valid sequence of <= 4 operations after signal scenario {idx}; {len(deep)} maximal histories")
+    re = enum_reentrant()
+    yield Batch("signals-reentrant", flat(re), kind="history", exhaustive=True,
+                note=f"calls whose callbacks let go of connections / connect new ones while the signal is being called: every single effect and every "
+                     f"pair of effects on a signal with three connections, all four instantiations; {len(re)} histories")
+    sd = enum_self_disconnect()
+    yield Batch("signals-self-disconnect", flat(sd), kind="history", exhaustive=True,
+                note=f"a callback that lets go of its own connection (undefined behaviour of the caller): the harness dies with heap-use-after-free in "
+                     f"iterator::increment exactly where the model faults; {len(sd)} histories, each ends in a deliberate sanitizer death")
     r = rng.fork("signals")
     n, ln = (10000, 50) if thorough else (1500, 30)
     hs = [gen_sig_history(r, r.range(ln // 2, ln)) for _ in range(n)]
-    yield Batch("signals-random", flat(hs), kind="history", note=f"{n} random histories of length {ln // 2}..{ln}; kinds weighted {SIG_WEIGHTS}; both signal::base and unregister::base")
+    yield Batch("signals-random", flat(hs), kind="history",
+                note=f"{n} random histories of length {ln // 2}..{ln}; kinds weighted {SIG_WEIGHTS}; int(int) and void(int) signals over signal::base and "
+                     f"unregister::base; connections held by optional_auto_connection and auto_connection_container")
 
 
 def equivalent(op, impl, model):
     """the driver appends the verdict of the spec judge; it must not be BAD and the rest must be identical"""
     core, sep, verdict = model.partition(" #spec=")
+    if model == "fault:oob" and op.split()[0] in ("rcall", "rvcall"):
+        # a callback let go of its own connection: the real loop reads the destroyed hook in ++it
+        return impl.startswith("CRASH(") and "heap-use-after-free" in impl and "iterator" in impl and "increment" in impl
     return core == impl and verdict != "BAD"
 
 
@@ -323,8 +889,13 @@ MANIFEST = {
                    "intrusive::base and intrusive::list pointer write by pointer write: for every history of valid operations the "
                    "store is the pointer image of a partition of the live nodes into rings (representation relation), hence every "
                    "live node's links are live and mutually inverse, no operation touches a dead node, and forward/backward "
-                   "iteration of a list yields exactly the abstract member list; signal call = callbacks of the live connections "
-                   "in connection order, left fold of the combiner, unregister exactly once. Tied to the code by a differential "
+                   "iteration of a list yields exactly the abstract member list, and each operation changes the member lists of all "
+                   "lists as the prose says (11 equations); iterator objects: ++/-- mutually inverse on every live node, begin()+i = i-th member, "
+                   "== is equality of positions, an iterator kept across a history stays usable while its node lives; signal call (int and "
+                   "void specialisation) = callbacks of the live connections in connection order, left fold of the combiner, unregister "
+                   "exactly once; a connection is alive iff exactly one owner slot (optional_auto_connection / container) holds it, over "
+                   "all owner histories; a call whose callbacks let go of connections or connect new ones never touches a destroyed "
+                   "connection unless a callback lets go of its own. Tied to the code by a differential "
                    "correspondence on operation histories (ASan/UBSan harness, raw prev_/next_ compared after every step)."),
     "level_note": ("Trusted: Lean kernel + propext/Classical.choice/Quot.sound; fidelity of the hand-written model outside the "
                    "exercised histories; harness and line protocol. No sorry/axiom/native_decide."),
